@@ -144,6 +144,10 @@ func cmdFn(args []string) int {
 				if *verbose {
 					fmt.Printf("  ok   %-60s %s %s %.2fs\n", vc.Obl, vc.Path, vc.Solver, vc.Secs)
 				}
+				if *keep != "" && os.Getenv("GOVC_KEEPALL") != "" {
+					os.MkdirAll(*keep, 0755)
+					os.WriteFile(filepath.Join(*keep, fmt.Sprintf("ok_%s_%s_%d.smt2", vc.Solver, sanitize(vc.Obl), i)), []byte(vc.SMT+"\n(check-sat)\n"), 0644)
+				}
 			} else {
 				fail++
 				fmt.Printf("  FAIL %-60s path=%s status=%s solver=%s pos=%s\n       goal: %s\n", vc.Obl, vc.Path, vc.Status, vc.Solver, vc.Pos, truncate(vc.Goal, 300))
